@@ -211,6 +211,10 @@ func TemplateText(parts []TmplPart) string {
 			sb.WriteString("{{ default " + Quote(t.Text) + " ." + t.A + " }}")
 		case "trim":
 			sb.WriteString("{{ ." + t.A + " | trim }}")
+		case "unix_of_label":
+			// Succeeds for a 10-digit unix timestamp, fails for anything else: the failure
+			// depends on the record and comes after earlier parts were already written.
+			sb.WriteString("{{ (unixToTime ." + t.A + ").Unix }}")
 		case "fail_unixToTime":
 			sb.WriteString("{{ unixToTime ." + t.A + " }}")
 		case "fail_regex":
@@ -416,7 +420,11 @@ func (p *printer) metric(m *Metric) {
 		}
 		p.tok("(")
 		if m.HasK {
-			p.tok(fmt.Sprint(m.K))
+			if m.KText != "" {
+				p.tok(m.KText)
+			} else {
+				p.tok(fmt.Sprint(m.K))
+			}
 			p.tok(",")
 		}
 		p.metric(m.Inner)
